@@ -437,7 +437,7 @@ _re_import_line = re.compile(r"^import[ \t]+\w+$")
 # to search for particular call statements.
 def _is_pkg_style_namespace(init_module: Path) -> bool:
     try:
-        code = init_module.read_text(encoding="utf8")
+        code = init_module.read_text(encoding="utf-8-sig")
     except (OSError, UnicodeDecodeError):
         # Let the loader report the unreadable module with a proper loading error.
         return False
